@@ -18,7 +18,7 @@ SEED_FENS = [
     "8/PPP4k/8/8/8/8/4Kppp/8 w - - 0 1",
     "r1bq1rk1/pp2bppp/2n1pn2/2pp4/3P1B2/2P1PN2/PP1N1PPP/R2QKB1R w KQ - 3 7",
     "4k3/8/8/8/8/8/8/4K2R w K - 0 1", "r3k3/8/8/8/8/8/8/4K3 b q - 0 1",
-    "8/8/8/4k3/8/8/3QK3/7r w - - 0 1", "8/8/8/8/8/5k2/8/4K2Q w - - 10 40",
+    "8/8/8/4k3/8/8/3QK3/7r w - - 0 1", "8/8/8/8/5k2/8/8/3QK3 w - - 10 40",
     "2r3k1/5ppp/8/8/8/8/5PPP/R5K1 w - - 96 80", "6k1/5ppp/8/8/8/8/r4PPP/1R4K1 b - - 99 70",
 ]
 PCS = "KQRBNPkqrbnp"
